@@ -132,7 +132,7 @@ func (p *Prog) initFieldDecls() {
 				fatalf("%s:%d: field declaration: unknown type %s", fd.File, fd.Line, fd.Type)
 			}
 			p.fdCache[fieldArrName(t, fd.Field)+"/"+fd.Mode] = fd
-			if fd.Mode == "guarded_by" || fd.Mode == "atomic" || fd.Mode == "confined" || fd.Mode == "immutable_after" {
+			if fd.Mode == "guarded_by" || fd.Mode == "atomic" || fd.Mode == "confined" || fd.Mode == "immutable_after" || fd.Mode == "owner_writes" {
 				p.fdCache[fieldArrName(t, fd.Field)] = fd
 			}
 		}
@@ -169,6 +169,20 @@ func (e *Exec) disciplineAccess(fr *Frame, st *State, in ssa.Instruction, a *Add
 		lk := fieldArrName(a.T, fd.Args[0]) + "@" + a.base
 		ok := st.held[lk] || (!write && st.held["r:"+lk])
 		e.oblige(st, "guard:"+name, "discipline", fd.Tags, boolStr(ok), fmt.Sprintf("%s of %s.%s requires %s to be held", kind, fd.Type, fd.Field, fd.Args[0]), in.Pos())
+	case "owner_writes":
+		// written only under the lock; read under the lock or, without it, by the
+		// roles that share a goroutine with the writer
+		lk := fieldArrName(a.T, fd.Args[0]) + "@" + a.base
+		ok := st.held[lk]
+		if !write && !ok {
+			ok = len(e.fc.Roles) > 0
+			for _, r := range e.fc.Roles {
+				if !contains(fd.Args[1:], r) {
+					ok = false
+				}
+			}
+		}
+		e.oblige(st, "guard:"+name, "discipline", fd.Tags, boolStr(ok), fmt.Sprintf("%s of %s.%s: writes need %s, lock-free reads are for roles %v (function roles %v)", kind, fd.Type, fd.Field, fd.Args[0], fd.Args[1:], e.fc.Roles), in.Pos())
 	case "atomic":
 		e.oblige(st, "atomic:"+name, "discipline", fd.Tags, "false", fmt.Sprintf("plain %s of %s.%s, which is declared atomic", kind, fd.Type, fd.Field), in.Pos())
 	case "immutable_after":
